@@ -180,6 +180,10 @@ def rule_pdl(rule, ty, const_type_prob_rng=None, reuse_matched_const=True):
             lines.append(f'  {o} = pdl.operation "arith.constant" {{"value" = {a}}} -> (%t : !pdl.type)')
             lines.append(f"  {r} = pdl.result 0 of {o}")
             matched.setdefault(e, r)
+            if e[0] == "anyc":
+                # a relaxed leaf stands for the `0` leaf of the original rule: an RHS that re-uses the matched
+                # constant keeps re-using it (that is what the compiled rewriter does)
+                matched.setdefault(("c", 0), r)
             return r
         a = m(e[1])
         b = m(e[2])
@@ -235,8 +239,10 @@ PROG_TYPES = ["i32", "i32", "i64", "i8", "i16"]
 PROG_OPS = ["addi", "addi", "addi", "muli", "muli", "subi", "shli", "andi", "ori", "xori"]
 
 
-def gen_func(rng, ty=None, ops=None):
-    """Pure arith DAG `func @main`; returns (text, argtypes, number of ops, set of op kinds)."""
+def gen_func(rng, ty=None, ops=None, plant=()):
+    """Pure arith DAG `func @main`; returns (text, argtypes, number of ops, type).  `plant`: (lhs, rhs) expression pairs of rules whose
+    left-hand sides are instantiated on random earlier values somewhere in the body, so that the rules have redexes
+    (also near-redexes: a planted constant is sometimes replaced by a neighbouring constant)."""
     ty = ty or rng.choice(PROG_TYPES)
     nargs = rng.randint(1, 3)
     env = [f"%a{i}" for i in range(nargs)]
@@ -244,8 +250,51 @@ def gen_func(rng, ty=None, ops=None):
     nops = rng.choice([2, 4, 4, 7, 7, 10, 14])
     consts = []
     ops = ops or PROG_OPS
+    cnt = [0]
+
+    def fresh():
+        cnt[0] += 1
+        return f"%v{cnt[0]}"
+
+    def emit_expr(e, venv):
+        if e[0] == "v":
+            if e[1] not in venv:
+                venv[e[1]] = rng.choice(env)
+            return venv[e[1]]
+        if e[0] == "c":
+            c = e[1] if rng.random() < 0.8 else rng.choice([0, 1, 2, 3])  # near-redex: neighbouring constant
+            v = fresh()
+            lines.append(f"{v} = arith.constant {c} : {ty}")
+            return v
+        a = emit_expr(e[1], venv)
+        b = emit_expr(e[2], venv)
+        v = fresh()
+        lines.append(f"{v} = {OPS[e[0]]} {a}, {b} : {ty}")
+        return v
+
+    def plant_one(pr):
+        lhs, rhs = pr
+        venv: dict = {}
+        v = emit_expr(lhs, venv)
+        env.append(v)
+        if rng.random() < 0.8:
+            # congruence twins: the same op applied to the redex and to what the rule says it is equal to; after the
+            # rule merges the two classes the parents become identical and the rebuild step has to merge them too
+            other = emit_expr(rhs, venv) if rhs[0] != "c" or rng.random() < 0.5 else None
+            if other is not None:
+                w = rng.choice(env)
+                op = rng.choice(["addi", "muli", "subi", "xori"])
+                for src in (v, other):
+                    t = fresh()
+                    lines.append(f"{t} = arith.{op} {src}, {w} : {ty}")
+                    env.append(t)
+
+    plant = list(plant)
     for j in range(nops):
-        v = f"%v{j}"
+        if plant and rng.random() < 0.35:
+            plant_one(plant.pop(rng.randrange(len(plant))))
+            continue
+        v = fresh()
         r = rng.random()
         if r < 0.28:
             c = rng.choice([0, 0, 0, 1, 1, 1, 2, 2, 3, -1])
@@ -261,16 +310,19 @@ def gen_func(rng, ty=None, ops=None):
                 b = rng.choice(env) if rng.random() < 0.85 else a
             lines.append(f"{v} = arith.{op} {a}, {b} : {ty}")
         env.append(v)
+    for pr in plant:
+        if rng.random() < 0.6:
+            plant_one(pr)
     nret = rng.choice([1, 1, 2, 3])
     # bias the returns to late values (deep expressions)
     rets = [rng.choice(env[-4:] if rng.random() < 0.7 else env) for _ in range(nret)]
     text = ("func.func @main(" + ", ".join(f"%a{i}: {ty}" for i in range(nargs)) + ") -> (" + ", ".join([ty] * nret) + ") {\n  "
             + "\n  ".join(lines) + f"\n  func.return {', '.join(rets)} : {', '.join([ty] * nret)}\n}}\n")
-    return text, [ty] * nargs, nops, ty
+    return text, [ty] * nargs, len(lines), ty
 
 
 # ------------------------------------------------------------------------------------------------ pipeline
-def run_pipeline(text, with_rules, max_iterations=20, cost_mode=("default", 1), workdir=None, stages=None):
+def run_pipeline(text, with_rules, max_iterations=20, cost_mode=("default", 1), workdir=None, stages=None, before_extract=None):
     """Parse `text` (func + patterns) and run the real passes.  Returns (ctx, module).  Exceptions propagate."""
     from xdsl.parser import Parser
     from xdsl.transforms.apply_eqsat_pdl_interp import ApplyEqsatPDLInterpPass
@@ -289,6 +341,15 @@ def run_pipeline(text, with_rules, max_iterations=20, cost_mode=("default", 1), 
     if with_rules:
         st["stage"] = "convert-pdl-to-pdl-interp"
         ConvertPDLToPDLInterpPass().apply(ctx, m)
+        z = 0
+        for o in m.walk():
+            vals = []
+            if o.name == "pdl_interp.check_attribute":
+                vals = [o.constantValue]
+            elif o.name == "pdl_interp.switch_attribute":
+                vals = list(o.caseValues.data)
+            z += sum(1 for v in vals if type(v).__name__ == "IntegerAttr" and v.value.data == 0)
+        st["zero_attr_checks"] = z  # structural observation for the known finding: value checks for a constant 0
         st["stage"] = "convert-pdl-interp-to-eqsat-pdl-interp"
         ConvertPDLInterpToEqsatPDLInterpPass().apply(ctx, m)
         st["stage"] = "apply-eqsat-pdl-interp"
@@ -305,19 +366,82 @@ def run_pipeline(text, with_rules, max_iterations=20, cost_mode=("default", 1), 
         with open(path, "w") as fh:
             json.dump(cost_mode[1], fh)
         EqsatAddCostsPass(cost_file=path, default=cost_mode[2]).apply(ctx, m)
+    if before_extract is not None:
+        st["stage"] = "egraph-snapshot"
+        before_extract(m)
     st["stage"] = "eqsat-extract"
     EqsatExtractPass().apply(ctx, m)
     st["stage"] = "done"
     return ctx, m
 
 
+def ir_text(op):
+    """Generic-format text (witness material only; custom printers can choke on ill-formed IR)."""
+    import io
+    from xdsl.printer import Printer
+    buf = io.StringIO()
+    try:
+        Printer(stream=buf, print_generic_format=True).print_op(op)
+    except Exception as e:  # noqa: BLE001
+        return buf.getvalue() + f"\n<unprintable: {type(e).__name__}>"
+    return buf.getvalue()
+
+
+RULES_BY_NAME: dict = {}
+
+
 def main_func(m):
     return next(o for o in m.body.block.ops if o.name == "func.func")
 
 
-def expr_form(func_op):
-    """Order-independent form of a single-block pure function: (tuple of returned expression trees, sorted
-    multiset of the expression trees of all ops).  Attributes through xv.canon.canon_attr."""
+class Interner:
+    """Hash-consing table shared by all expression forms of one case: structurally equal expressions get the same
+    small integer, so forms are flat tuples of ints (no exponential tuple comparison on DAGs)."""
+
+    def __init__(self):
+        self.ids: dict = {}
+
+    def get(self, key):
+        i = self.ids.get(key)
+        if i is None:
+            i = self.ids[key] = len(self.ids)
+        return i
+
+
+def is_acyclic(func_op):
+    """True when the def-use graph of the single block has no cycle (an op using, directly or not, its own result)."""
+    block = func_op.regions[0].blocks[0]
+    state: dict = {}
+    ops = list(block.ops)
+    for root in ops:
+        if id(root) in state:
+            continue
+        stack = [(root, iter(root.operands))]
+        state[id(root)] = 1
+        while stack:
+            op, it = stack[-1]
+            adv = False
+            for v in it:
+                o = v.owner
+                if o is block or not hasattr(o, "operands"):
+                    continue
+                st = state.get(id(o))
+                if st == 1:
+                    return False
+                if st is None:
+                    state[id(o)] = 1
+                    stack.append((o, iter(o.operands)))
+                    adv = True
+                    break
+            if not adv:
+                state[id(op)] = 2
+                stack.pop()
+    return True
+
+
+def expr_form(func_op, interner):
+    """Order-independent form of an ACYCLIC single-block pure function: (tuple of ids of the returned expressions,
+    sorted multiset of the ids of the expressions of all op results).  Attributes through xv.canon.canon_attr."""
     from xv.canon import canon_attr
     block = func_op.regions[0].blocks[0]
     memo: dict = {}
@@ -329,14 +453,14 @@ def expr_form(func_op):
         keep.append(v)
         owner = v.owner
         if owner is block:
-            r = ("arg", v.index)
+            r = interner.get(("arg", v.index))
         elif hasattr(owner, "operands") and hasattr(owner, "name"):
-            r = ("op", owner.name, tuple(ex(o) for o in owner.operands),
-                 tuple(sorted((k, canon_attr(a)) for k, a in owner.properties.items())),
-                 tuple(sorted((k, canon_attr(a)) for k, a in owner.attributes.items())),
-                 canon_attr(v.type), list(owner.results).index(v))
+            r = interner.get(("op", owner.name, tuple(ex(o) for o in owner.operands),
+                              tuple(sorted((k, canon_attr(a)) for k, a in owner.properties.items())),
+                              tuple(sorted((k, canon_attr(a)) for k, a in owner.attributes.items())),
+                              canon_attr(v.type), list(owner.results).index(v)))
         else:
-            r = ("ext", repr(type(owner)))
+            r = interner.get(("ext", repr(type(owner))))
         memo[id(v)] = r
         return r
     rets = None
@@ -345,5 +469,157 @@ def expr_form(func_op):
         if op.name == "func.return":
             rets = tuple(ex(o) for o in op.operands)
         else:
-            allops.append(repr(tuple(ex(r) for r in op.results)))
+            allops.extend(ex(r) for r in op.results)
     return rets, tuple(sorted(allops))
+
+
+# ------------------------------------------------------------------------------------------------ e-graph reference
+CLASS_NAMES = ("equivalence.class", "equivalence.const_class")
+
+
+def egraph_reference(func_op, cost_of, interner):
+    """Independent reading of the e-graph embedded in `func_op` after eqsat-add-costs (before extraction).
+    cost_of(op name) -> positive int is OUR cost table (the one the check handed to the pass).
+    Returns a dict with
+      problems:      list of (kind, text): min_cost_index missing / out of range / not of minimal total cost
+      returns:       expected expression tree of every returned value when each class is replaced by the node its
+                     min_cost_index designates (same shape as expr_form()[0]); None when the designation is cyclic
+      classes, nodes, checked: sizes
+    Total cost of a node = own cost + sum of the (minimal) costs of its operand classes; block arguments are free."""
+    from xv.canon import canon_attr
+    block = func_op.regions[0].blocks[0]
+    classes = [o for o in block.ops if o.name in CLASS_NAMES]
+    cls_of_value = {}
+    keep = []
+    for c in classes:
+        cls_of_value[id(c.results[0])] = c
+        keep.append(c.results[0])
+
+    def children(node_op):
+        return [cls_of_value.get(id(v)) for v in node_op.operands]
+
+    INF = float("inf")
+    best = {id(c): INF for c in classes}
+
+    def node_cost(v):
+        owner = v.owner
+        if owner is block:
+            return 0
+        tot = cost_of(owner.name)
+        for ch, opv in zip(children(owner), owner.operands):
+            if ch is None:
+                # operand that is not an e-class result: block argument (free) or a plain op (own cost)
+                tot += 0 if opv.owner is block else cost_of(opv.owner.name)
+            else:
+                tot += best[id(ch)]
+        return tot
+    changed = True
+    rounds = 0
+    while changed and rounds < 10000:
+        changed = False
+        rounds += 1
+        for c in classes:
+            for v in c.operands:
+                t = node_cost(v)
+                if t < best[id(c)]:
+                    best[id(c)] = t
+                    changed = True
+    problems = []
+    chosen = {}
+    checked = 0
+    for c in classes:
+        mci = c.attributes.get("min_cost_index")
+        if mci is None:
+            problems.append(("min-cost-index-missing", str(c)))
+            continue
+        i = mci.data
+        if not (0 <= i < len(c.operands)):
+            problems.append(("min-cost-index-out-of-range", str(c)))
+            continue
+        chosen[id(c)] = c.operands[i]
+        checked += 1
+        t = node_cost(c.operands[i])
+        if t != best[id(c)]:
+            problems.append(("min-cost-index-not-minimal", f"class of {len(c.operands)} nodes: designated node #{i} costs {t}, minimum is {best[id(c)]}"))
+    # designated extraction
+    memo: dict = {}
+    onpath: set = set()
+    cyclic = [False]
+
+    def ex_value(v):
+        c = cls_of_value.get(id(v))
+        if c is not None:
+            return ex_class(c)
+        if v.owner is block:
+            return interner.get(("arg", v.index))
+        return ex_node(v)
+
+    def ex_class(c):
+        if id(c) in memo:
+            return memo[id(c)]
+        if id(c) in onpath or id(c) not in chosen:
+            cyclic[0] = True
+            return interner.get(("cycle",))
+        onpath.add(id(c))
+        v = chosen[id(c)]
+        r = interner.get(("arg", v.index)) if v.owner is block else ex_node(v)
+        onpath.discard(id(c))
+        memo[id(c)] = r
+        return r
+
+    def ex_node(v):
+        o = v.owner
+        return interner.get(("op", o.name, tuple(ex_value(x) for x in o.operands),
+                             tuple(sorted((k, canon_attr(a)) for k, a in o.properties.items())),
+                             tuple(sorted((k, canon_attr(a)) for k, a in o.attributes.items() if k != "eqsat_cost")),
+                             canon_attr(v.type), list(o.results).index(v)))
+    rets = None
+    for op in block.ops:
+        if op.name == "func.return":
+            rets = tuple(ex_value(x) for x in op.operands)
+    return {"problems": problems, "returns": None if cyclic[0] else rets, "classes": len(classes),
+            "nodes": sum(len(c.operands) for c in classes), "checked": checked}
+
+
+def use_before_def(func_op):
+    """Number of operands of the single-block function that are results of an op placed LATER in the block
+    (our own dominance check: xDSL's verifier does not check dominance)."""
+    block = func_op.regions[0].blocks[0]
+    pos = {id(o): i for i, o in enumerate(block.ops)}
+    keep = list(block.ops)
+    n = 0
+    for i, o in enumerate(keep):
+        for v in o.operands:
+            if v.owner is not block and id(v.owner) in pos and pos[id(v.owner)] >= i:
+                n += 1
+    return n
+
+
+def toposort_block(func_op):
+    """Reorder the ops of the single block into a definition-before-use order (stable; terminator last).
+    Returns False when the use graph is cyclic (nothing is changed then)."""
+    block = func_op.regions[0].blocks[0]
+    ops = list(block.ops)
+    inblock = {id(o) for o in ops}
+    done: set = set()
+    order = []
+    pending = [o for o in ops if o.name != "func.return"]
+    term = [o for o in ops if o.name == "func.return"]
+    while pending:
+        progressed = False
+        rest = []
+        for o in pending:
+            if all(v.owner is block or id(v.owner) not in inblock or id(v.owner) in done for v in o.operands):
+                order.append(o)
+                done.add(id(o))
+                progressed = True
+            else:
+                rest.append(o)
+        pending = rest
+        if not progressed:
+            return False
+    for o in ops:
+        o.detach()
+    for o in order + term:
+        block.add_op(o)
+    return True
